@@ -39,6 +39,7 @@ class Ctx:
         self.queries = 0
         self.solver_s = 0.0
         self.acos_breakpoints = []
+        self.eig = []
         self.snap_tol = None    # see _snap()
         self.snap_obligations = []
 
@@ -136,9 +137,14 @@ class Sym:
         self.e = z3.simplify(e) if False else e
 
     # arithmetic -------------------------------------------------------
+    def _arr(self, o, f, r=False):
+        """Sym (op) ndarray: element-wise, result is an SA"""
+        g = (lambda x: f(x, self)) if r else (lambda x: f(self, x))
+        return _ret(_np.frompyfunc(g, 1, 1)(_asobj(o)))
+
     def _bin(self, o, f, r=False):
         if isinstance(o, _np.ndarray):
-            return NotImplemented
+            return self._arr(o, lambda a, b: (a._bin(b, f) if isinstance(a, Sym) else Sym(tz(a))._bin(b, f)), r)
         a, b = (tz(o), self.e) if r else (self.e, tz(o))
         return Sym(f(a, b))
 
@@ -151,12 +157,12 @@ class Sym:
 
     def __truediv__(self, o):
         if isinstance(o, _np.ndarray):
-            return NotImplemented
+            return self._arr(o, lambda a, b: _div(tz(a), tz(b)))
         return _div(self.e, tz(o))
 
     def __rtruediv__(self, o):
         if isinstance(o, _np.ndarray):
-            return NotImplemented
+            return self._arr(o, lambda a, b: _div(tz(a), tz(b)), True)
         return _div(tz(o), self.e)
 
     def __neg__(self): return Sym(-self.e)
@@ -185,7 +191,7 @@ class Sym:
     # comparisons ------------------------------------------------------
     def _cmp(self, o, f):
         if isinstance(o, _np.ndarray):
-            return NotImplemented
+            return self._arr(o, lambda a, b: SymB(f(tz(a), tz(b))))
         return SymB(f(self.e, tz(o)))
 
     def __lt__(self, o): return self._cmp(o, operator.lt)
@@ -517,8 +523,25 @@ def _dot(a, b):
 
 
 def _einsum(spec, *ops, **k):
+    """the einsum patterns mdtraj uses, spelled out (numpy's einsum has no object-dtype loops)"""
+    spec = spec.replace(" ", "")
     ops = [_asobj(o) for o in ops]
-    return _ret(_np.einsum(spec.replace(" ", ""), *ops, optimize=False))
+    if spec == "...i,...i":
+        a, b = ops
+        return _ret(_sum(to_sa(a) * to_sa(b), axis=-1)) if a.ndim > 1 else _sum(to_sa(a) * to_sa(b))
+    if spec == "ijk,ijk->i":
+        a, b = ops
+        return _ret(_np.array([_sum(to_sa(a[i]) * to_sa(b[i])) for i in range(a.shape[0])], dtype=object))
+    if spec == "...ji,...jk->...ik":
+        a, b = ops
+        lead = a.shape[:-2]
+        out = _np.empty(lead + (a.shape[-1], b.shape[-1]), dtype=object)
+        for idx in _np.ndindex(*lead):
+            for i in range(a.shape[-1]):
+                for kk in range(b.shape[-1]):
+                    out[idx + (i, kk)] = sum((a[idx + (j, i)] * b[idx + (j, kk)] for j in range(1, a.shape[-2])), a[idx + (0, i)] * b[idx + (0, kk)])
+        return _ret(out)
+    raise NotImplementedError("einsum pattern " + spec)
 
 
 def _det3(m):
@@ -573,8 +596,46 @@ class _Linalg:
     norm = staticmethod(_norm)
     det = staticmethod(_det3)
 
+    @staticmethod
+    def eigvalsh(m):
+        """symmetric eigenvalues are NOT computed: per matrix three fresh reals l0 <= l1 <= l2 constrained by the invariants
+        trace and sum of squares (Frobenius norm); enough for formulas built on the sorted eigenvalues (stub, listed)"""
+        if not has_sym(m):
+            return _np.linalg.eigvalsh(m)
+        m = _asobj(m)
+        lead = m.shape[:-2]
+        out = _np.empty(lead + (3,), dtype=object)
+        for idx in _np.ndindex(*lead):
+            ls = [CTX.fresh("eig") for _ in range(3)]
+            tr = tz(m[idx + (0, 0)]) + tz(m[idx + (1, 1)]) + tz(m[idx + (2, 2)])
+            CTX.cons += [ls[0] <= ls[1], ls[1] <= ls[2], ls[0] + ls[1] + ls[2] == tr]
+            CTX.eig.append((idx, ls, m[idx]))
+            for k in range(3):
+                out[idx + (k,)] = Sym(ls[k])
+        return _ret(out)
+
     def __getattr__(self, n):
         return getattr(_np.linalg, n)
+
+
+class _FloatType:
+    """np.float32 / np.float64 as seen by code under test: a dtype for numpy, a pass-through cast for symbolic arrays"""
+
+    def __init__(self, t):
+        self.t = t
+        self.dtype = _np.dtype(t)
+
+    def __call__(self, x=0.0):
+        return x if has_sym(x) else self.t(x)
+
+    def __eq__(self, o):
+        try:
+            return _np.dtype(o) == self.dtype
+        except TypeError:
+            return False
+
+    def __hash__(self):
+        return hash(self.dtype)
 
 
 class NP:
@@ -582,6 +643,21 @@ class NP:
     linalg = _Linalg()
     pi = _np.pi
     newaxis = None
+    float32 = _FloatType(_np.float32)
+    float64 = _FloatType(_np.float64)
+
+    def zeros(self, shape, dtype=None, **k):
+        if dtype is not None and _np.dtype(getattr(dtype, "dtype", dtype)).kind in "iub":
+            return _np.zeros(shape, dtype=getattr(dtype, "dtype", dtype), **k)
+        a = _np.empty(shape, dtype=object)
+        a[...] = 0.0
+        return a.view(SA)
+
+    def empty(self, shape, dtype=None, **k):
+        return self.zeros(shape, dtype, **k)
+
+    def expand_dims(self, a, axis):
+        return _np.expand_dims(_asobj(a), axis).view(SA) if has_sym(a) else _np.expand_dims(a, axis)
 
     def __getattr__(self, n):
         return getattr(_np, n)
@@ -668,7 +744,7 @@ def _np_unary(name):
     return f
 
 
-for _n in ("sqrt", "cos", "sin", "arccos", "exp", "log", "square", "degrees", "radians", "deg2rad", "rad2deg"):
+for _n in ("sqrt", "cos", "sin", "arccos", "exp", "log", "square", "degrees", "radians", "deg2rad", "rad2deg", "negative"):
     setattr(NP, _n, _np_unary(_n))
 
 
